@@ -1257,6 +1257,7 @@ func c11Spec() propSpec {
 			multiTarget: true,
 			nilRounds:   true,
 			concVoting:  true,
+			stallFirst:  true,
 		},
 		setup:  func(s *sim) { s.realCertificates = true },
 		oracle: c11Oracle,
